@@ -627,6 +627,12 @@ func (hp *HTTPProxy) isLocalhost(host string) bool {
 }
 
 func (hp *HTTPProxy) setBasicAuth(req *http.Request) error {
+	// The headers of a CONNECT are delivered to the next proxy hop, never to the
+	// site behind the tunnel, so site credentials do not belong on them.
+	if req.Method == http.MethodConnect {
+		return nil
+	}
+
 	if req.Header.Get("Authorization") == "" {
 		if u := hp.creds.MatchURL(req.URL); u != nil {
 			p, _ := u.Password()
